@@ -218,7 +218,20 @@ class C01:
             return {"schema": sc, "flags": flags, "texts": texts}
         return case()
 
+    # every clause of the statement on a hand-built schema, under each context flag (fixed texts: not left to chance)
+    CLAUSES = [
+        "tm a { x = 1 }\ntm A { x = 2 }\ntm a { }\n", "tu t { }\ntu T { x = 3 }\n", "tu t { }\ntu t { }\n", "tm a { }\ntm b { x = 2 }\ntm a { x = 3 }\n",
+        "single { x = 1 }\nSINGLE { x = 2 }\nsingle { }\n", "multi { x = 1 }\nmulti { }\nMulti { x = 3 }\n", "I = 3\ni = 4\n", "nd { }\nnd { x = 2 }\n",
+        "ts t1 { x = 1 }\nts t2 { }\n", "nest { d = 2 deeper a { e = 3 } deeper A { } deeper a { el += z } }\n", "mnest { deeper z { } }\nmnest { deeper z { e = 1 } deeper Z { } }\n",
+        "single { zl = {} zl += 3 }\nsingle { zl += 4 }\n", "multi { zl += 9 }\nmulti { zl = {7} zl += 8 }\n", "i = 1\ni = 2\nunknown_name = 3\n",
+        "tm \"\" { }\ntm '' { x = 2 }\n", "tm 1 { }\ntm 01 { }\n",
+    ]
+
     def run(self, r):
+        r.run_cases([{"schema": "sections", "flags": f, "texts": [[["raw", t]]]} for f in (0, F_NOCASE, F_IGNORE_UNKNOWN, F_NOCASE | F_IGNORE_UNKNOWN)
+                     for t in self.CLAUSES] +
+                    [{"schema": "sections", "flags": f, "texts": [[["raw", a]], [["raw", b]]]} for f in (0, F_NOCASE)
+                     for a in self.CLAUSES[:6] for b in self.CLAUSES[:6]], chunksize=8)
         r.run_cases(self.exhaustive_cases(5 if r.tier == "quick" else 6), chunksize=2)
         r.exhaustive = True
         r.run_hypothesis(16000 if r.tier == "quick" else 1500000)
